@@ -342,10 +342,16 @@ pub struct Scenario {
     /// file system under the same relative path.
     #[serde(default)]
     pub real_tree: bool,
-    /// real files (relative path, text) to create in the scratch directory, e.g. a
-    /// `--files-from` list
+    /// real files to create in the scratch directory, e.g. a `--files-from` list
     #[serde(default)]
-    pub real_files: Vec<(String, String)>,
+    pub real_files: Vec<RealFile>,
+}
+
+#[derive(Serialize, Deserialize, Clone, Debug, PartialEq, Eq)]
+pub struct RealFile {
+    pub path: String,
+    #[serde(with = "b64", rename = "bytes_b64")]
+    pub bytes: Vec<u8>,
 }
 
 #[derive(Serialize, Deserialize, Clone, Debug, PartialEq, Eq)]
